@@ -13,7 +13,7 @@ GEN_NEEDS = ["SingleInterval_", "Strand_", "CompoundInterval_scan_blocks", "Comp
              "CompoundInterval_relative_to_parent_pos", "CompoundInterval_relative_interval_to_parent_location",
              "CompoundInterval_is_overlapping", "CompoundInterval_has_overlap", "CompoundInterval_combine_blocks",
              "CompoundInterval_optimize_blocks", "CompoundInterval_optimize_and_combine_blocks",
-             "CompoundInterval_gap_list"]
+             "CompoundInterval_gap_list"]   # ("SingleInterval_" covers SingleInterval_has_overlap)
 DRIVER = "drivers/C01.lean"
 SPEC_DRIVER = "drivers/SpecC01.lean"
 DRIVER_MODULES = ["BioCantor.Driver.Main", "BioCantor.Driver.Loc"]
@@ -119,7 +119,8 @@ def _cases(run):
                         hi = max(e for _, e in blocks)
                         s0 = run.rng.randint(0, hi + 1)
                         yield (f"ghasov {enc_loc(kind, st, blocks)} "
-                               f"{enc_loc('S', run.rng.choice('+-.'), [(s0, run.rng.randint(s0, hi + 2))])}")
+                               f"{enc_loc('S', run.rng.choice('+-.'), [(s0, run.rng.randint(s0, hi + 2))])} "
+                               f"{run.rng.choice('01')}")
     # relative-location form: all ordered pairs of small layouts
     pg = 3 if run.tier == "quick" else 4
     small = list(gen_loc.layouts_exhaustive(2, pg))
@@ -154,7 +155,11 @@ def _cases(run):
         yield f"ggaplist {loc}"
         yield f"gisov {loc}"
         s0 = run.rng.randint(0, hi + 1)
-        yield f"ghasov {loc} {enc_loc('S', run.rng.choice('+-.'), [(s0, run.rng.randint(s0, hi + 2))])}"
+        yield (f"ghasov {loc} {enc_loc('S', run.rng.choice('+-.'), [(s0, run.rng.randint(s0, hi + 2))])} "
+               f"{run.rng.choice('01')}")
+        s1 = run.rng.randint(0, hi + 1)
+        yield (f"ghasov {enc_loc('S', run.rng.choice('+-.'), [(s1, run.rng.randint(s1, hi + 2))])} "
+               f"{enc_loc('S', run.rng.choice('+-.'), [(s0, run.rng.randint(s0, hi + 2))])} {run.rng.choice('01')}")
         if scale <= 5000:
             other = gen_loc.random_layout(run.rng, max_blocks=6, max_coord=scale, p_overlap=0.05)
             yield f"locrel {loc} {enc_loc('C', run.rng.choice(STRANDS), other)} {run.rng.choice('01')}"
